@@ -607,6 +607,20 @@ func (c *Ctx) sentinelTransparent(rule string) {
 					}
 				}
 				walk(ev, 0)
+				// the not-found sentinel is an answer about the session (nobody named);
+				// once storage has been asked, its answer stands: replacing a storage
+				// error by "not found" turns a fault into a refusal (404/401/login
+				// redirect instead of 500) and lets callers treat a fault as "anonymous"
+				if g := loadOfGlobal(ev); g != nil && g.Name() == "ErrUserNotFound" && bad == "" {
+					for _, call := range Calls(fn) {
+						cn := Callee(call)
+						gf := StaticCallee(call)
+						asksStorage := cn == fnLoad || (gf != nil && inSet[gf] && gf != fn)
+						if asksStorage && Reaches(call.(ssa.Instruction), ret) {
+							bad = "ErrUserNotFound returned after storage was asked (" + cn + ")"
+						}
+					}
+				}
 				pos := c.P.InstrPos(ret)
 				if bad == "" {
 					r.Ok(rule, name, "return error", pos, "storage error handed through unchanged (nil, sentinel or the callee's own error)")
